@@ -63,6 +63,8 @@ type GeneratorOutput struct {
 	Options   GeneratorOptions  `json:"meta"`
 	SourceMap *parser.SourceMap `json:"sourceMap"`
 	Literals  []string          `json:"literals"`
+	// Skeleton is the generated code without the contents of the string literals and the generated date.
+	Skeleton string `json:"-"`
 }
 
 type GeneratorOptions struct {
@@ -103,6 +105,10 @@ func HasChanged(previous, updated GeneratorOutput) bool {
 			return true
 		}
 	}
+	// If the generated code differs anywhere other than inside the string literals, we need to recompile.
+	if previous.Skeleton != updated.Skeleton {
+		return true
+	}
 	return false
 }
 
@@ -126,6 +132,7 @@ func Generate(template parser.TemplateFile, w io.Writer, opts ...GenerateOpt) (o
 	op.Options = g.options
 	op.SourceMap = g.sourceMap
 	op.Literals = g.w.Literals
+	op.Skeleton = g.w.Skeleton()
 	return op, nil
 }
 
@@ -189,7 +196,8 @@ func (g *generator) writeVersionComment() (err error) {
 
 func (g *generator) writeGeneratedDateComment() (err error) {
 	if g.options.GeneratedDate != "" {
-		_, err = g.w.Write("// templ: generated: " + g.options.GeneratedDate + "\n")
+		// The generated date is not part of the skeleton, it doesn't determine whether the file has changed.
+		_, err = g.w.writeUnrecorded("// templ: generated: " + g.options.GeneratedDate + "\n")
 	}
 	return err
 }
@@ -946,8 +954,22 @@ func (g *generator) writeExpressionErrorHandler(indentLevel int, expression pars
 	indentLevel++
 	line := int(expression.Range.To.Line + 1)
 	col := int(expression.Range.To.Col)
-	_, err = g.w.WriteIndent(indentLevel, "return	templ.Error{Err: templ_7745c5c3_Err, FileName: "+createGoString(g.options.FileName)+", Line: "+strconv.Itoa(line)+", Col: "+strconv.Itoa(col)+"}\n")
+	// The position is where the expression is in the template, it moves when text in front of it is edited
+	// and is not part of the skeleton.
+	_, err = g.w.WriteIndent(indentLevel, "return	templ.Error{Err: templ_7745c5c3_Err, FileName: "+createGoString(g.options.FileName)+", Line: ")
 	if err != nil {
+		return err
+	}
+	if _, err = g.w.writeUnrecorded(strconv.Itoa(line)); err != nil {
+		return err
+	}
+	if _, err = g.w.Write(", Col: "); err != nil {
+		return err
+	}
+	if _, err = g.w.writeUnrecorded(strconv.Itoa(col)); err != nil {
+		return err
+	}
+	if _, err = g.w.Write("}\n"); err != nil {
 		return err
 	}
 	indentLevel--
